@@ -155,6 +155,6 @@ def oracle_with_probe(case: dict) -> Outcome:
 
 STREAMS = {
     "worlds": Stream("worlds", oracle=oracle_with_probe, strategy=strategy, quick=640, thorough=0, shards_quick=16, shards_thorough=16),
-    "big_buffers": Stream("big_buffers", oracle=lambda case: oracle_big(case), strategy=strategy_big, quick=12, thorough=160, shards_quick=4, shards_thorough=16),
-    "worlds_large": Stream("worlds_large", oracle=oracle_with_probe, strategy=strategy_thorough, quick=0, thorough=6000, shards_quick=16, shards_thorough=16),
+    "big_buffers": Stream("big_buffers", oracle=lambda case: oracle_big(case), strategy=strategy_big, quick=12, thorough=96, shards_quick=4, shards_thorough=16),
+    "worlds_large": Stream("worlds_large", oracle=oracle_with_probe, strategy=strategy_thorough, quick=0, thorough=3000, shards_quick=16, shards_thorough=16),
 }
